@@ -412,17 +412,25 @@ func TestDecodersOnShortStrings(t *testing.T) {
 	}
 	sec.Bounds["binary_decoders_all_256_bytes_up_to_len"] = binAll
 	sec.Bounds["Pin_protobuf_all_256_bytes_up_to_len"] = binPin
-	sec.Bounds["Pin_LogOp_State_reduced_alphabet_up_to_len"] = redMax
+	sec.Bounds["reduced_alphabet_up_to_len"] = redMax
 	sec.Bounds["reduced_alphabet_protobuf"] = fmt.Sprintf("%x", protoAlphabet)
 	sec.Bounds["reduced_alphabet_msgpack"] = fmt.Sprintf("%x", mpAlphabet)
 	sec.Bounds["json_alphabet"] = jsonAlphabet
 	sec.Bounds["json_decoders_up_to_len"] = jsAll
 	sec.Bounds["json_Pin_up_to_len"] = jsPin
+	// thorough: all 256^3 strings for the decoders of the records that cross
+	// peers most; the remaining binary decoders get 256^2 plus the reduced
+	// alphabet up to redMax.
+	deep := map[string]bool{"Pin": true, "LogOp": true, "State": true, "PinOptions": true, "AddParams": true,
+		"PinInfo": true, "GlobalPinInfo": true, "ID": true, "Metric": true, "Multiaddr": true}
+	sec.Bounds["all_256_len3_in_thorough_for"] = "Pin LogOp State PinOptions AddParams PinInfo GlobalPinInfo ID Metric Multiaddr"
 	for _, d := range allDecoders() {
 		isJSON := d.codec == "json"
 		maxLen, alphabet := binAll, allBytes
 		if isJSON {
 			maxLen, alphabet = jsAll, []byte(jsonAlphabet)
+		} else if ev.Thorough() && !deep[d.typ] {
+			maxLen = 2
 		}
 		if d.typ == "Pin" {
 			if isJSON {
@@ -434,7 +442,7 @@ func TestDecodersOnShortStrings(t *testing.T) {
 		for l := 0; l <= maxLen; l++ {
 			enumStrings(sec, d, fmt.Sprintf("len%d", l), alphabet, l)
 		}
-		if !isJSON && (d.typ == "Pin" || d.typ == "LogOp" || d.typ == "State") {
+		if !isJSON && (d.typ == "Pin" || d.typ == "LogOp" || d.typ == "State" || (ev.Thorough() && !deep[d.typ])) {
 			red := mpAlphabet
 			if d.codec == "protobuf" {
 				red = protoAlphabet
